@@ -274,9 +274,13 @@ def nearest_rule(ctx, r):
         r.ok("partition", "in-root directories: take_while(!is_absolute_parent); above the root: skip_while(!is_absolute_parent)", fn=f)
     else:
         r.bad("partition", "the two directory loops no longer partition the parents at the search root (%s)" % parts, fn=f, construct="partition")
-    ex = [c for c in f.calls() if c.is_("core::iter::traits::iterator::Iterator::next") and
-          mentions_field(eb.operand(c.args[0]), INNER, "explicit_ignores")]
-    if ex and all("rev::Rev" in (c.func.get("resolved") or "") for c in ex):
+    # whatever consumes the iterator over explicit_ignores (the `next` of a for loop, find, find_map, …) consumes it reversed
+    CONSUMERS = ("next", "find", "find_map", "any", "all", "fold", "try_fold", "for_each", "try_for_each", "last", "position",
+                 "collect", "nth")
+    ex = [c for c in f.calls() if c.path.startswith("core::iter::traits::iterator::Iterator::") and c.path.rsplit("::", 1)[1] in CONSUMERS and
+          c.args and mentions_field(eb.operand(c.args[0]), INNER, "explicit_ignores")]
+    if ex and all("rev::Rev" in (c.func.get("resolved") or "") or mentions_call(eb.operand(c.args[0]), "core::iter::traits::iterator::Iterator::rev")
+                  for c in ex):
         r.ok("explicit-order", "--ignore-file matchers are consulted last-added first", fn=f)
     else:
         r.bad("explicit-order", "explicit ignore files are no longer scanned in reverse order of addition", fn=f, construct="explicit-order")
